@@ -6,6 +6,7 @@ CONSTANTS
   UseQueue = FALSE
   SkipQueue = FALSE
   Faults = FALSE
+  FaultKinds = {"crash", "reject", "third"}
   MaxC = 40
   RepStatuses = {"SUCCESSFUL", "FAILED"}
   Atomic = TRUE
